@@ -30,3 +30,8 @@ finally:
     subprocess.run(['git', '-C', '/repo', 'apply', '-R', patch], check=True)
     assert subprocess.run(['git', '-C', '/repo', 'status', '--porcelain', '--untracked-files=no'], stdout=subprocess.PIPE, text=True).stdout.strip() == ''
 json.dump(res, open(os.path.join(d, 'last_run_%s.json' % tier), 'w'), indent=1)
+for c, v in res.items():
+    meta.setdefault('caught_by', {})['%s %s' % (c, tier)] = {'verdict': 'CAUGHT' if v['rc'] == 1 else ('BROKEN' if v['rc'] == 2 else 'missed'), 'wall_s': v['wall'],
+                                                          'first_violation': (v['violations'][1].strip() if len(v['violations']) > 1 else '')[:240]}
+meta['what_was_run'] = 'python3 py/seedtest.py %s  (git -C /repo apply patch.diff; ./check <ID> <tier>; git -C /repo apply -R patch.diff)' % sid
+json.dump(meta, open(os.path.join(d, 'meta.json'), 'w'), indent=1)
